@@ -21,10 +21,10 @@ def AboveRegion (cfg : Cfg) : St → View → Screen → List Op → Prop
     (op ≠ .stop → AboveRegion cfg (step cfg noFault st op).st (viewStep cfg st v op)
       (replay cfg.height s (step cfg noFault st op).out) rest)
 
-theorem history_main {cfg : Cfg} (hb : cfg.bareBypass = false) (hH : 1 ≤ cfg.height) (ops : List Op) :
+theorem history_main {cfg : Cfg} (hc : cfg.plain = true) (hb : cfg.bareBypass = false) (hH : 1 ≤ cfg.height) (ops : List Op) :
     ∀ (st : St) (v : View) (s : Screen), Good cfg st v s → wfOps cfg st ops = true →
       (∃ k, (replay cfg.height s (run cfg noFault st ops).2.1).rows =
-        (specRun cfg st v ops).2.printed ++ (specRun cfg st v ops).2.frame ++ List.replicate k []) ∧
+        ((specRun cfg st v ops).2.printed ++ (specRun cfg st v ops).2.frame).map (cells cfg.cw) ++ List.replicate k []) ∧
       AboveRegion cfg st v s ops ∧
       (∀ pre, ops = pre ++ [.stop] → ((run cfg noFault st pre).1.started = true) →
         (replay cfg.height s (run cfg noFault st ops).2.1).visible = true) := by
@@ -39,13 +39,14 @@ theorem history_main {cfg : Cfg} (hb : cfg.bareBypass = false) (hH : 1 ≤ cfg.h
     by_cases hop : op = .stop
     · subst hop
       simp only [wfOps, if_true, Bool.and_eq_true, List.isEmpty_iff] at hwf
-      obtain ⟨⟨hrest, _⟩, hfit⟩ := hwf
+      obtain ⟨⟨⟨⟨hrest, _⟩, hbo⟩, hbe⟩, hfit⟩ := hwf
       subst hrest
-      have hfit' : st.started = true → cfg.transient = true → (stopFrame cfg st).length + 1 ≤ cfg.height := by
+      have hfit' : st.started = true → cfg.transient = true →
+            restoreCount cfg.blankFix (stopFrame cfg st).length + 1 ≤ cfg.height := by
         intro h1 h2
         simp [h1, h2] at hfit
         exact hfit
-      obtain ⟨s', hrun, hrows, hvis⟩ := good_stop g hfit'
+      obtain ⟨s', hrun, hrows, hvis⟩ := good_stop hc hH g hbo hbe hfit'
       have eout : (run cfg noFault st [Op.stop]).2.1 = (doStop cfg noFault st).out := by
         rw [run_cons_out]; simp [run, step]
       refine ⟨?_, ⟨?_, fun h => absurd rfl h⟩, ?_⟩
@@ -66,7 +67,7 @@ theorem history_main {cfg : Cfg} (hb : cfg.bareBypass = false) (hH : 1 ≤ cfg.h
         cases h : (step cfg noFault st op).err <;> simp [h] at herr ⊢
       have hfit' : redraws cfg st op = true → (shown cfg (step cfg noFault st op).st).length ≤ cfg.height := by
         intro h; simp [h] at hfit; exact hfit
-      obtain ⟨s', hrun, hg⟩ := good_step hb hH g op hop happ herr' hfit'
+      obtain ⟨s', hrun, hg⟩ := good_step hc hb hH g op hop happ herr' hfit'
       obtain ⟨hrows, habove, hvis⟩ := ih _ _ _ hg hwfr
       refine ⟨?_, ⟨hrun.2, fun _ => by rw [hrun.1]; exact habove⟩, ?_⟩
       · rw [run_cons_out, replay_append, hrun.1]
@@ -96,7 +97,7 @@ def AboveRegionM (cfg : Cfg) : St → View → Screen → List Op → Prop
       (replay cfg.height s (step cfg noFault st op).out) rest
 
 /-- Invariant carried through a history with any number of sessions (repaired `stop`). -/
-theorem history_multi {cfg : Cfg} (hb : cfg.bareBypass = false) (hreset : cfg.resetShape = true)
+theorem history_multi {cfg : Cfg} (hc : cfg.plain = true) (hb : cfg.bareBypass = false) (hreset : cfg.resetShape = true)
     (hH : 1 ≤ cfg.height) (ops : List Op) :
     ∀ (st : St) (v : View) (s : Screen), Good cfg st v s → wfOpsM cfg st ops = true →
       Good cfg (specRunM cfg st v ops).1 (specRunM cfg st v ops).2
@@ -113,13 +114,14 @@ theorem history_multi {cfg : Cfg} (hb : cfg.bareBypass = false) (hreset : cfg.re
         Good cfg (step cfg noFault st op).st (viewStepM cfg st v op) s' := by
       by_cases hstop : op = .stop
       · subst hstop
-        simp only [if_true, Bool.and_eq_true] at hop
-        have hfit' : st.started = true → cfg.transient = true → (stopFrame cfg st).length + 1 ≤ cfg.height := by
+        simp only [if_true, Bool.and_eq_true, List.isEmpty_iff] at hop
+        have hfit' : st.started = true → cfg.transient = true →
+            restoreCount cfg.blankFix (stopFrame cfg st).length + 1 ≤ cfg.height := by
           intro h1 h2
           have := hop.2
           simp [h1, h2] at this
           exact this
-        obtain ⟨s', hrun, hg, _⟩ := good_stop_good hH hreset g hfit'
+        obtain ⟨s', hrun, hg, _⟩ := good_stop_good hc hH hreset g hop.1.1.2 hop.1.2 hfit'
         refine ⟨s', hrun, ?_⟩
         simp only [viewStepM, if_true]
         exact hg
@@ -129,7 +131,7 @@ theorem history_multi {cfg : Cfg} (hb : cfg.bareBypass = false) (hreset : cfg.re
           cases h : (step cfg noFault st op).err <;> simp [h] at herr ⊢
         have hfit' : redraws cfg st op = true → (shown cfg (step cfg noFault st op).st).length ≤ cfg.height := by
           intro h; simp [h] at hfit; exact hfit
-        obtain ⟨s', hrun, hg⟩ := good_step hb hH g op hstop happ herr' hfit'
+        obtain ⟨s', hrun, hg⟩ := good_step hc hb hH g op hstop happ herr' hfit'
         exact ⟨s', hrun, by simpa [viewStepM, hstop] using hg⟩
     obtain ⟨s', hrun, hg⟩ := hstep
     obtain ⟨hgood, hstate, habove⟩ := ih _ _ _ hg hwfr
